@@ -11,7 +11,9 @@ RULE = ('cases = any well-formed chart whose fragments send internal events with
         'delays and advances from {0,1/4,1/2,1,2,5} (equal due times frequent). A queue model '
         '(due = interpreter time + delay, arrival number) predicts the consumed event of every '
         'step; epilogue with all guards false and the clock past every due time checks every uid '
-        'was consumed exactly once. Non-trivial = history with a delayed event and >=2 events '
+        'was consumed exactly once; the class (internal/external) of the consumed event is compared '
+        'too, and in a quarter of the cases the events carry no uid, so that internal and external '
+        'events of one name and delay are equal objects. Non-trivial = history with a delayed event and >=2 events '
         'sharing a due time, or with internal and external events pending at once; distinct = '
         'sha1(chart, op list).')
 ASSUMPTIONS = ['due time is relative to the interpreter time (property statement), not the clock']
@@ -24,13 +26,29 @@ def strategy(tier):
                                p_eventless=0.1, p_aguard=0.15))
         ops = draw(gen.histories(spec, 10, 40, advances=True, delays=True, as_event=True,
                                  extra_events=1, p_all=0.3, p_none=0.3))
-        return {'spec': spec, 'ops': ops}
+        # anonymous events (a quarter of the cases): nothing but class, name and delay tells an
+        # internal event from an external one
+        return {'spec': spec, 'ops': ops, 'nouid': draw(st.integers(0, 3)) == 0,
+                'faults': draw(gen.faults(ops))}
     return cases()
 
 
 def oracle(case):
     from ..cli import sha
+    if case.get('nouid'):
+        import copy
+        case = copy.deepcopy(case)
+        for o in case['spec']['states'] + case['spec']['transitions']:
+            for k in ('sends', 'sends_entry', 'sends_exit'):
+                for s_ in o.get(k) or []:
+                    s_['nouid'] = True
+                    if s_.get('delay') is not None:
+                        s_['delay'] = 1       # one delay value: equal events are frequent
+        case['ops'] = [[op[0], op[1], None if op[2] is None else 1, op[3], None]
+                       if op[0] == 'q' else op for op in case['ops']]
     r = core_oracle(case, PROP, epilogue=True)
+    if case.get('nouid'):
+        r['labels']['histories with anonymous events'] = 1
     # non-triviality is a property of the whole history here
     ops = case['ops']
     delayed = any(o[0] == 'q' and o[2] is not None for o in ops)
